@@ -1,0 +1,88 @@
+//go:build verif
+
+package mhprimary
+
+import (
+	"context"
+	"time"
+
+	"github.com/ipld/go-storethehash/store/freelist"
+	"github.com/ipld/go-storethehash/store/types"
+)
+
+// VerifPoolRecord is one pooled primary record with its assigned location.
+type VerifPoolRecord struct {
+	Block types.Block
+	Key   []byte
+	Value []byte
+}
+
+// VerifState returns the flushed and predicted write positions.
+func (mp *MultihashPrimary) VerifState() (fileNum uint32, length types.Position, recFileNum uint32, recPos types.Position) {
+	mp.flushLock.Lock()
+	defer mp.flushLock.Unlock()
+	mp.poolLk.RLock()
+	defer mp.poolLk.RUnlock()
+	return mp.fileNum, mp.length, mp.recFileNum, mp.recPos
+}
+
+// VerifPools returns the records in the next and current pools.
+func (mp *MultihashPrimary) VerifPools() (next, cur []VerifPoolRecord) {
+	mp.poolLk.RLock()
+	defer mp.poolLk.RUnlock()
+	cp := func(p blockPool) []VerifPoolRecord {
+		out := make([]VerifPoolRecord, len(p.blocks))
+		for blk, i := range p.refs {
+			out[i] = VerifPoolRecord{Block: blk, Key: p.blocks[i].key, Value: p.blocks[i].value}
+		}
+		return out
+	}
+	return cp(mp.nextPool), cp(mp.curPool)
+}
+
+// VerifNewGC attaches a garbage collector to the primary without starting its
+// background goroutine, so that cycles can be driven synchronously with
+// VerifGC. It does nothing if a collector is already attached.
+func (mp *MultihashPrimary) VerifNewGC(freeList *freelist.FreeList, updateIndex UpdateIndexFunc) {
+	mp.gcMutex.Lock()
+	defer mp.gcMutex.Unlock()
+	if mp.gc != nil {
+		return
+	}
+	gc := &primaryGC{
+		freeList:    freeList,
+		primary:     mp,
+		done:        make(chan struct{}),
+		stop:        make(chan struct{}),
+		updateIndex: updateIndex,
+		visited:     make(map[uint32]struct{}),
+	}
+	close(gc.done)
+	mp.gc = gc
+}
+
+// VerifGC runs one primary GC cycle synchronously with the given time limit.
+func (mp *MultihashPrimary) VerifGC(ctx context.Context, lowUsePercent int64, timeLimit time.Duration) (int64, error) {
+	mp.gcMutex.Lock()
+	gc := mp.gc
+	mp.gcMutex.Unlock()
+	if gc == nil {
+		return 0, nil
+	}
+	return gc.gc(ctx, lowUsePercent, timeLimit)
+}
+
+// VerifVisited returns the collector's visited set.
+func (mp *MultihashPrimary) VerifVisited() []uint32 {
+	mp.gcMutex.Lock()
+	gc := mp.gc
+	mp.gcMutex.Unlock()
+	if gc == nil {
+		return nil
+	}
+	out := make([]uint32, 0, len(gc.visited))
+	for f := range gc.visited {
+		out = append(out, f)
+	}
+	return out
+}
